@@ -375,6 +375,29 @@ example :
       (.seq (.ev (.act ⟨.call, "self._taskman.cancel_key_tasks"⟩)) (.seq (.ev (.aw "asyncio.sleep")) (.ev (.act ⟨.call, "self.unwatch_all"⟩)))) = false := by
   decide +kernel
 
+/-- **every started locate / connect phase is closed by its finished event even when the phase raises or is cancelled**: over the
+regenerated skeletons of `async_locate_spas` and `async_connect_to_spa`, however the coroutine ends - return, exception, a
+cancellation delivered at ANY of its awaits (rule `awRaise`) - once the STARTED announcement has returned, the FINISHED
+announcement is awaited before the coroutine is left (`releasedOnEveryExit_sound`) -/
+theorem every_started_phase_is_closed :
+    releasedOnEveryExit (isAwaitOf "self._handle_event(GeckoSpaEvent.LOCATING_STARTED)")
+      (isAwaitOf "self._handle_event(GeckoSpaEvent.LOCATING_FINISHED)") sk_async_spa_manager__GeckoAsyncSpaMan_async_locate_spas = true ∧
+    releasedOnEveryExit (isAwaitOf "self._handle_event(GeckoSpaEvent.CONNECTION_STARTED)")
+      (isAwaitOf "self._handle_event(GeckoSpaEvent.CONNECTION_FINISHED)") sk_async_spa_manager__GeckoAsyncSpaMan_async_connect_to_spa = true := by
+  decide +kernel
+
+theorem every_started_phase_is_closed_traces (t : List Ev) (o : Out)
+    (h : Run sk_async_spa_manager__GeckoAsyncSpaMan_async_locate_spas t o) :
+    ∃ s, runMon (resourceMon (isAwaitOf "self._handle_event(GeckoSpaEvent.LOCATING_STARTED)")
+      (isAwaitOf "self._handle_event(GeckoSpaEvent.LOCATING_FINISHED)")) 0 t = some s ∧ (s = 0 ∨ s = 2) :=
+  releasedOnEveryExit_sound _ _ _ every_started_phase_is_closed.1 t o h
+
+/-- non-vacuity: without the `finally` a cancellation inside the phase leaves it open -/
+example : releasedOnEveryExit (isAwaitOf "started") (isAwaitOf "finished")
+    (.seq (.ev (.aw "started")) (.seq (.ev (.aw "locator.discover")) (.ev (.aw "finished")))) = false ∧
+    releasedOnEveryExit (isAwaitOf "started") (isAwaitOf "finished")
+    (.fin (.seq (.ev (.aw "started")) (.ev (.aw "locator.discover"))) (.ev (.aw "finished"))) = true := by decide +kernel
+
 end Order
 
 end GeckoModel.C08
